@@ -6,7 +6,9 @@ from concurrent.futures import ThreadPoolExecutor
 
 VERIF = os.path.dirname(os.path.dirname(os.path.abspath(__file__)))
 REPO = os.environ.get('VERIF_REPO', '/repo')
-BUILD = os.path.join(VERIF, 'build')
+BUILD = os.environ.get('VERIF_BUILD_ROOT', os.path.join(VERIF, 'build'))
+EVIDENCE_DIR = os.environ.get('VERIF_EVIDENCE_DIR', os.path.join(VERIF, 'evidence'))
+REPLAY_DIR = os.environ.get('VERIF_REPLAY_DIR', os.path.join(VERIF, 'replays'))
 sys.path.insert(0, os.path.join(VERIF, 'mc'))
 from registry import CHECKS  # noqa: E402
 
@@ -56,36 +58,45 @@ class BuildError(Exception):
 
 
 def build_lib(cfg):
-    """(Re)compile every library TU of /repo's working tree for this configuration."""
+    """(Re)compile the library TUs of /repo's working tree for this configuration.
+    Every object carries a stamp = sha(TU content, all header contents, flags): a TU is recompiled iff its stamp differs."""
     c = CONFIGS[cfg]
     d = os.path.join(BUILD, cfg)
     os.makedirs(os.path.join(d, 'lib'), exist_ok=True)
     files = repo_files()
     rhash = sha_files(files)
-    stamp = os.path.join(d, 'lib.stamp')
+    headers = [f for f in files if not f.endswith('.cpp')]
+    hhash = sha_files(headers) + ' '.join([c['cxx']] + COMMON + c['flags'])
     with open(os.path.join(d, '.lock'), 'w') as lk:
         fcntl.flock(lk, fcntl.LOCK_EX)
-        old = open(stamp).read() if os.path.exists(stamp) else ''
         srcs = [f for f in files if f.endswith('.cpp') and f.startswith(os.path.join(REPO, 'src'))]
         objs = [os.path.join(d, 'lib', os.path.relpath(s, os.path.join(REPO, 'src')).replace('/', '__')[:-4] + '.o') for s in srcs]
-        if old != rhash or not all(os.path.exists(o) for o in objs):
-            for o in glob.glob(os.path.join(d, 'lib', '*.o')):
+        wanted = set(objs)
+        for o in glob.glob(os.path.join(d, 'lib', '*.o')):
+            if o not in wanted:
                 os.unlink(o)
-            if os.path.exists(stamp):
-                os.unlink(stamp)
+        todo = []
+        for s_, o in zip(srcs, objs):
+            st = hashlib.sha256((hhash + sha_files([s_])).encode()).hexdigest()
+            sp = o + '.stamp'
+            if not (os.path.exists(o) and os.path.exists(sp) and open(sp).read() == st):
+                todo.append((s_, o, st))
 
-            def comp(so):
-                s, o = so
-                r = run([c['cxx']] + COMMON + c['flags'] + ['-I' + os.path.join(REPO, 'src'), '-c', s, '-o', o])
-                return (s, r.returncode, r.stdout)
+        def comp(job):
+            s_, o, st = job
+            if os.path.exists(o + '.stamp'):
+                os.unlink(o + '.stamp')
+            r = run([c['cxx']] + COMMON + c['flags'] + ['-I' + os.path.join(REPO, 'src'), '-c', s_, '-o', o])
+            if r.returncode == 0:
+                with open(o + '.stamp', 'w') as f:
+                    f.write(st)
+            return (s_, r.returncode, r.stdout)
+        if todo:
             with ThreadPoolExecutor(16) as ex:
-                res = list(ex.map(comp, zip(srcs, objs)))
+                res = list(ex.map(comp, todo))
             bad = [r for r in res if r[1] != 0]
             if bad:
                 raise BuildError('library does not compile (%s):\n%s' % (cfg, bad[0][2][-3000:]))
-            # mc.cpp for this config
-            with open(stamp, 'w') as f:
-                f.write(rhash)
     return rhash, objs
 
 
@@ -232,7 +243,7 @@ def main():
     for key, (k, n) in sorted(seen_known.items()):
         print('KNOWN-FINDING: property=%s %s [site %s]' % (cid, k.get('what', ''), k['site']))
     rc = 0
-    rdir = os.path.join(VERIF, 'replays', cid)
+    rdir = os.path.join(REPLAY_DIR, cid)
     if new:
         shutil.rmtree(rdir, ignore_errors=True)
         os.makedirs(rdir, exist_ok=True)
@@ -306,11 +317,11 @@ def main():
         'wall_s': round(time.time() - t0, 2),
         'violations': len(new),
     }
-    os.makedirs(os.path.join(VERIF, 'evidence'), exist_ok=True)
-    json.dump(ev, open(os.path.join(VERIF, 'evidence', cid + '.json'), 'w'), indent=1)
+    os.makedirs(EVIDENCE_DIR, exist_ok=True)
+    json.dump(ev, open(os.path.join(EVIDENCE_DIR, cid + '.json'), 'w'), indent=1)
     # vacuity guard: clauses that must have been exercised
     missing = [c for c in spec.get('must_hit', {}).get(tier, spec.get('must_hit', {}).get('any', [])) if counters.get(c, 0) == 0]
-    if missing and complete:
+    if missing and complete and rc == 0 and not seen_known:   # a violation may legitimately cut a clause's exercise short
         print('HARNESS-SELF-TEST-FAILURE: clauses never exercised: %s' % ', '.join(missing))
         return 2
     print('%s %s: states=%d transitions=%d cases=%d/%d outcomes=%d new_violations=%d known=%d exhaustive=%s wall=%.1fs' % (
